@@ -60,7 +60,7 @@ var vGrowFn = interpreter.VerifFuncSpec{Params: []byte{i32}, Body: []byte{0x20, 
 // VerifC02_SSA_Reuse: several accesses on the SAME base value (what the bounds-check elision cache keys on), in every
 // order of two boundary offsets, straight, across a call that may grow the memory, across memory.grow, and across an
 // if/else join; plus memory.size / memory.grow results themselves.
-//verif:opts split=shape:10 obl-timeout=240000 wall=1500
+//verif:opts split=shape:11 obl-timeout=240000 wall=1500
 func VerifC02_SSA_Reuse() {
 	offs := vOffs()
 	o1 := offs[verifrt.Choose("off1", len(offs))]
@@ -69,7 +69,14 @@ func VerifC02_SSA_Reuse() {
 	ld2 := cat(lg(0), []byte{0x2d}, memarg(o2))
 	ldw := cat(lg(0), []byte{0x28}, memarg(o2)) // i32.load (wider) base+o2
 	var p vProgram
-	switch verifrt.Choose("shape", 10) {
+	switch verifrt.Choose("shape", 11) {
+	case 10: // the base is i32.wrap_i64 of an i64 parameter (any upper half), accessed in both arms of an if and after the join
+		o3 := offs[verifrt.Choose("off3", len(offs))]
+		w1 := cat(lg(2), []byte{0x2d}, memarg(o1))
+		w2 := cat(lg(2), []byte{0x2d}, memarg(o2))
+		w3 := cat(lg(2), []byte{0x2d}, memarg(o3))
+		p = vProgram{mem: true, params: []byte{i64, i32}, locals: []byte{i32}, results: []byte{i32},
+			body: cat(lg(0), []byte{0xa7, 0x21, 0x02}, lg(1), []byte{0x04, 0x7f}, w1, []byte{0x05}, w2, []byte{0x0b}, w3, []byte{0x6a})}
 	case 8: // if c then load o1 end ; load o3 : a bound checked only in the arm must not cover the access after the join
 		o3 := offs[verifrt.Choose("off3", len(offs))]
 		ld3 := cat(lg(0), []byte{0x2d}, memarg(o3))
@@ -149,7 +156,10 @@ func vT2Reuse(offs []uint32) []vProgram {
 					vProgram{name: "if-noelse-then-wider", mem: true, params: []byte{i32, i32}, results: []byte{i32},
 						body: cat(lg(1), []byte{0x04, 0x40}, ld1, []byte{0x1a, 0x0b}, ld3)},
 					vProgram{name: "if-else-join-third", mem: true, params: []byte{i32, i32}, results: []byte{i32},
-						body: cat(lg(1), []byte{0x04, 0x7f}, ld1, []byte{0x05}, ld2, []byte{0x0b}, ld3, []byte{0x6a})})
+						body: cat(lg(1), []byte{0x04, 0x7f}, ld1, []byte{0x05}, ld2, []byte{0x0b}, ld3, []byte{0x6a})},
+					vProgram{name: "wrap-base-join", mem: true, params: []byte{i64, i32}, locals: []byte{i32}, results: []byte{i32},
+						body: cat(lg(0), []byte{0xa7, 0x21, 0x02}, lg(1), []byte{0x04, 0x7f}, cat(lg(2), []byte{0x2d}, memarg(o1)), []byte{0x05},
+							cat(lg(2), []byte{0x2d}, memarg(o2)), []byte{0x0b}, cat(lg(2), []byte{0x2d}, memarg(o3)), []byte{0x6a})})
 			}
 			for _, cb := range offs {
 				l1a := cat(lg(1), []byte{0x2d}, memarg(o1))
